@@ -21,7 +21,8 @@ def swarm(run_seed, base):
     if rs_.random() < base.get("stratum_rate", 0.5):
         from sim.gen_prog import G
 
-        st = [x for x in G.strata(with_cfg=bool(base.get("configs"))) if not base.get("ops") or x[1] in base["ops"]]
+        st = [x for x in G.strata(with_cfg=bool(base.get("configs")), generic=base.get("strata_generic", True))
+              if not base.get("ops") or x[1] in base["ops"]]
         if base.get("strata_ops"):
             st = [x for x in st if x[1] in base["strata_ops"]]
         if st:
@@ -72,12 +73,12 @@ def cfg_C06(rs):
 
 def cfg_C01(rs):
     return swarm(rs, {"checks": {"sem": True}, "props": ["C01"], "fault_rates": [0.0, 0.2, 0.35], "fault_kinds": ["F1", "F2", "F3c"],
-                      "call_eqv_macro": 0.1, "weights": SEM_W})
+                      "call_eqv_macro": 0.1, "weights": SEM_W, "strata_generic": False, "stratum_rate": 0.7})
 
 
 def cfg_C04(rs):
     return swarm(rs, {"checks": {"sem": True, "valid": True}, "props": ["C04"], "fault_rates": [0.0, 0.2], "compile_rate": 0.05,
-                      "fault_kinds": ["F1", "F2", "F3c"], "weights": SEM_W})
+                      "fault_kinds": ["F1", "F2", "F3c"], "weights": SEM_W, "strata_generic": False, "stratum_rate": 0.7})
 
 
 def cfg_C10(rs):
